@@ -288,7 +288,10 @@ where
                         }
                         let rec = Rec::new(stats, !failed.get());
                         rec.eval(1);
-                        match f(&tape, &rec) {
+                        watchdog_enter(shard, &name, &tape);
+                        let verdict = f(&tape, &rec);
+                        watchdog_leave(shard);
+                        match verdict {
                             Ok(()) => Ok(()),
                             Err(bad) => {
                                 failed.set(true);
@@ -691,4 +694,266 @@ impl<'a> Tape<'a> {
     pub fn remaining(&self) -> usize {
         self.data.len().saturating_sub(self.pos)
     }
+}
+
+// ---------------------------------------------------------------------------
+// Coverage-guided stage (thorough tier): cargo-fuzz / libFuzzer targets in /verif/fuzz
+// ---------------------------------------------------------------------------
+
+pub struct FuzzOutcome {
+    /// false when the stage could not run (no nightly toolchain, build failure): recorded, not a verdict
+    pub ran: bool,
+    pub execs: u64,
+    pub note: String,
+    /// crashing inputs written by libFuzzer (to be confirmed by the deterministic engine)
+    pub artifacts: Vec<Vec<u8>>,
+}
+
+/// Build (once) and run a libFuzzer target with `jobs` parallel instances of `runs` executions each,
+/// from a fresh corpus directory seeded with `seeds`. Crashes are returned as artifacts, never judged here.
+pub fn run_fuzz_target(ctx: &Ctx, target: &str, jobs: usize, runs: u64, max_len: usize, seeds: &[Vec<u8>]) -> FuzzOutcome {
+    use std::process::Command;
+    let base = PathBuf::from(format!("/verif/target/fuzzrun/{}-{}", target, std::process::id()));
+    let _ = std::fs::remove_dir_all(&base);
+    let build = Command::new("cargo")
+        .args(["+nightly", "fuzz", "build", "--fuzz-dir", "/verif/fuzz", "--target-dir", "/verif/target/fuzz", target])
+        .env("CARGO_NET_OFFLINE", "true")
+        .output();
+    match build {
+        Ok(o) if o.status.success() => {}
+        Ok(o) => {
+            return FuzzOutcome { ran: false, execs: 0, note: format!("cargo fuzz build failed: {}", String::from_utf8_lossy(&o.stderr).lines().last().unwrap_or("")), artifacts: vec![] }
+        }
+        Err(e) => return FuzzOutcome { ran: false, execs: 0, note: format!("cargo fuzz not available: {e}"), artifacts: vec![] },
+    }
+    let execs = AtomicU64::new(0);
+    let artifacts: Mutex<Vec<Vec<u8>>> = Mutex::new(Vec::new());
+    let notes: Mutex<Vec<String>> = Mutex::new(Vec::new());
+    std::thread::scope(|scope| {
+        for j in 0..jobs {
+            let base = base.clone();
+            let execs = &execs;
+            let artifacts = &artifacts;
+            let notes = &notes;
+            scope.spawn(move || {
+                let corpus = base.join(format!("corpus{j}"));
+                let arts = base.join(format!("artifacts{j}"));
+                let _ = std::fs::create_dir_all(&corpus);
+                let _ = std::fs::create_dir_all(&arts);
+                // odd jobs start from an empty corpus, even jobs from the seeds
+                if j % 2 == 0 {
+                    for (k, s) in seeds.iter().enumerate() {
+                        let _ = std::fs::write(corpus.join(format!("seed{k}")), s);
+                    }
+                }
+                let out = Command::new("cargo")
+                    .args(["+nightly", "fuzz", "run", "--fuzz-dir", "/verif/fuzz", "--target-dir", "/verif/target/fuzz", target])
+                    .arg(&corpus)
+                    .arg("--")
+                    .arg(format!("-runs={runs}"))
+                    .arg(format!("-seed={}", ctx.seed.wrapping_mul(31).wrapping_add(j as u64 + 1)))
+                    .arg(format!("-max_len={max_len}"))
+                    .arg("-len_control=0")
+                    .arg("-timeout=120")
+                    .arg("-rss_limit_mb=4096")
+                    .arg("-print_final_stats=1")
+                    .arg(format!("-artifact_prefix={}/", arts.display()))
+                    .env("CARGO_NET_OFFLINE", "true")
+                    .output();
+                match out {
+                    Ok(o) => {
+                        let err = String::from_utf8_lossy(&o.stderr);
+                        for l in err.lines() {
+                            if let Some(n) = l.strip_prefix("stat::number_of_executed_units:") {
+                                execs.fetch_add(n.trim().parse::<u64>().unwrap_or(0), Ordering::Relaxed);
+                            }
+                        }
+                        if let Ok(rd) = std::fs::read_dir(&arts) {
+                            for e in rd.flatten() {
+                                if let Ok(b) = std::fs::read(e.path()) {
+                                    artifacts.lock().unwrap().push(b);
+                                }
+                            }
+                        }
+                        if !o.status.success() {
+                            notes.lock().unwrap().push(format!("job {j}: libFuzzer exit {:?}: {}", o.status.code(), err.lines().filter(|l| l.contains("ORACLE-FAILURE") || l.contains("ERROR:")).next().unwrap_or("")));
+                        }
+                    }
+                    Err(e) => notes.lock().unwrap().push(format!("job {j}: cannot run cargo fuzz: {e}")),
+                }
+            });
+        }
+    });
+    let _ = std::fs::remove_dir_all(&base);
+    FuzzOutcome {
+        ran: true,
+        execs: execs.load(Ordering::Relaxed),
+        note: notes.into_inner().unwrap().join(" | "),
+        artifacts: artifacts.into_inner().unwrap(),
+    }
+}
+
+/// Run a libFuzzer target in the thorough tier and confirm every artifact with the deterministic
+/// oracle `confirm` (only confirmed artifacts become violations). Returns a summary for the evidence.
+#[allow(clippy::too_many_arguments)]
+pub fn fuzz_stage(
+    ctx: &Ctx,
+    stats: &Stats,
+    outcome: &mut Outcome,
+    known: &[Known],
+    target: &str,
+    jobs: usize,
+    runs: u64,
+    max_len: usize,
+    seeds: &[Vec<u8>],
+    confirm: &dyn Fn(&[u8]) -> Verdict,
+) -> Value {
+    if ctx.tier != Tier::Thorough {
+        return json!({"stage": "not run in the quick tier"});
+    }
+    let fo = run_fuzz_target(ctx, target, jobs, runs, max_len, seeds);
+    stats.eval(fo.execs);
+    stats.class_n(&format!("libfuzzer:{target}:executions"), fo.execs);
+    let mut confirmed = 0;
+    for a in &fo.artifacts {
+        if let Err(b) = confirm(a) {
+            confirmed += 1;
+            outcome.absorb(
+                known,
+                vec![Failure { check: format!("fuzz_{target}"), tape: a.clone(), reason: b.reason, signature: b.signature, rendered: b.rendered }],
+            );
+        }
+    }
+    json!({"target": target, "ran": fo.ran, "executions": fo.execs, "artifacts": fo.artifacts.len(), "confirmed": confirmed, "note": fo.note})
+}
+
+
+/// Run jobs on detached worker threads so that a job that never returns (a non-terminating
+/// function under test) cannot block the verdict: once a failure is known the remaining jobs get
+/// `grace` to finish; with no failure and no progress for `idle_limit` the run is declared hung.
+/// Returns (failures, hung).
+pub fn run_detached<T: Send + Sync + 'static>(
+    jobs: Vec<T>,
+    workers: usize,
+    f: std::sync::Arc<dyn Fn(usize, &T) -> Verdict + Send + Sync>,
+    grace: std::time::Duration,
+    idle_limit: std::time::Duration,
+) -> (Vec<(usize, Bad)>, bool) {
+    use std::sync::mpsc;
+    use std::sync::Arc;
+    let n = jobs.len();
+    let jobs = Arc::new(jobs);
+    let next = Arc::new(AtomicU64::new(0));
+    let (tx, rx) = mpsc::channel::<(usize, Verdict)>();
+    for _ in 0..workers.max(1) {
+        let jobs = jobs.clone();
+        let next = next.clone();
+        let tx = tx.clone();
+        let f = f.clone();
+        let _ = std::thread::Builder::new().stack_size(64 << 20).spawn(move || loop {
+            let i = next.fetch_add(1, Ordering::Relaxed) as usize;
+            if i >= jobs.len() {
+                break;
+            }
+            let r = f(i, &jobs[i]);
+            if tx.send((i, r)).is_err() {
+                break;
+            }
+        });
+    }
+    drop(tx);
+    let mut done = 0usize;
+    let mut fails = Vec::new();
+    let mut first_failure: Option<Instant> = None;
+    let mut last_progress = Instant::now();
+    let mut hung = false;
+    while done < n {
+        match rx.recv_timeout(std::time::Duration::from_millis(500)) {
+            Ok((i, r)) => {
+                done += 1;
+                last_progress = Instant::now();
+                if let Err(b) = r {
+                    fails.push((i, b));
+                    first_failure.get_or_insert_with(Instant::now);
+                }
+            }
+            Err(mpsc::RecvTimeoutError::Timeout) => {
+                if let Some(t0) = first_failure {
+                    if t0.elapsed() > grace {
+                        hung = true;
+                        break;
+                    }
+                }
+                if last_progress.elapsed() > idle_limit {
+                    hung = true;
+                    break;
+                }
+            }
+            Err(mpsc::RecvTimeoutError::Disconnected) => break,
+        }
+    }
+    fails.sort_by_key(|(i, _)| *i);
+    (fails, hung)
+}
+
+
+// ---------------------------------------------------------------------------
+// Per-case watchdog: a generated case that does not come back (a non-terminating function under
+// an in-process check) would otherwise block the run for ever.  The case's tape is saved and the
+// run ends with the infrastructure status (2): a hang is not a verdict on the property checked.
+// ---------------------------------------------------------------------------
+
+struct InFlight {
+    since: Instant,
+    name: String,
+    tape: Vec<u8>,
+}
+
+static IN_FLIGHT: Mutex<Vec<Option<InFlight>>> = Mutex::new(Vec::new());
+
+fn watchdog_enter(shard: usize, name: &str, tape: &[u8]) {
+    let mut g = IN_FLIGHT.lock().unwrap();
+    if g.len() <= shard {
+        g.resize_with(shard + 1, || None);
+    }
+    g[shard] = Some(InFlight { since: Instant::now(), name: name.to_string(), tape: tape.to_vec() });
+}
+
+fn watchdog_leave(shard: usize) {
+    let mut g = IN_FLIGHT.lock().unwrap();
+    if let Some(slot) = g.get_mut(shard) {
+        *slot = None;
+    }
+}
+
+/// Start the monitor thread (once per process).
+pub fn start_watchdog(property: &str, limit: std::time::Duration) {
+    let property = property.to_string();
+    let _ = std::thread::Builder::new().name("watchdog".into()).spawn(move || loop {
+        std::thread::sleep(std::time::Duration::from_secs(5));
+        let g = IN_FLIGHT.lock().unwrap();
+        for slot in g.iter().flatten() {
+            if slot.since.elapsed() > limit {
+                let dir = format!("/verif/replays/{property}");
+                let _ = std::fs::create_dir_all(&dir);
+                let path = format!("{dir}/hang-{:016x}.json", fnv(&slot.tape));
+                let _ = std::fs::write(
+                    &path,
+                    serde_json::to_string_pretty(&json!({
+                        "property": property,
+                        "check": slot.name,
+                        "tape_hex": hex(&slot.tape),
+                        "reason": format!("case did not finish within {} s", limit.as_secs()),
+                    }))
+                    .unwrap(),
+                );
+                eprintln!(
+                    "INFRA: watchdog: a case of sub-check {} did not finish within {} s; tape saved to {path}",
+                    slot.name,
+                    limit.as_secs()
+                );
+                std::process::exit(2);
+            }
+        }
+    });
 }
